@@ -344,10 +344,21 @@ Definition row (i : nat) (cols : list (str * list (option val))) : list (str * v
     | Some (Some v) => [(fst c, v)]
     | _ => []
     end) cols.
+(** bounds that keep the candidate sets small on very large types (candidates only) *)
+Definition ROW_CAP : nat := 24.
+Definition MEMBER_CAP : nat := 12.
+
+(** at most about [n] elements of [l], evenly spread *)
+Definition sample {A} (n : nat) (l : list A) : list A :=
+  let len := length l in
+  if Nat.leb len n then l
+  else let stride := Datatypes.S (Nat.div len n) in
+       flat_map (fun p => if Nat.eqb (Nat.modulo (fst p) stride) 0 then [snd p] else []) (combine (seq 0 len) l).
+
 Definition records (cols : list (str * list (option val))) : list val :=
   if existsb (fun c => match snd c with [] => true | _ => false end) cols then []
   else
-    let n := fold_right (fun c a => Nat.max (length (snd c)) a) 1 cols in
+    let n := Nat.min ROW_CAP (fold_right (fun c a => Nat.max (length (snd c)) a) 1 cols) in
     map (fun i => VObj (row i cols)) (seq 0 n).
 
 Definition scalar_alts (k : leaf_kind) : list val :=
@@ -455,7 +466,7 @@ Section Inhab.
         | TNs a b => match env_ns2 E a b with Some t' => inhabitants f t' | None => [] end
         | TNs3 a b c => match env_ns3 E a b c with Some t' => inhabitants f t' | None => [] end
         | TArray x | TRoArray x => list_alts (inhabitants f x)
-        | TUnion ts => flat_map (inhabitants f) ts
+        | TUnion ts => flat_map (fun x => firstn MEMBER_CAP (inhabitants f x)) ts
         | TObject fs => of_fields fs
         | TFunc (TNs _ fn) [orig; TObject obj; TObject others] =>
             if str_eqb fn SELSET then
